@@ -611,6 +611,10 @@ class Evaluator(object):
                             for kw in n.keywords), key=_sk))
         if cname in self.transparent and len(args) == 1 and not kws:
             return poly_of_key(args[0])
+        if fk[0] == 'attr' and fk[2] == 'keys' and not args and not kws:
+            # iterating / testing membership / len of d.keys() is the same
+            # as of d
+            return poly_of_key(fk[1])
         res = ('call', fk, tuple(args), kws)
         self._note_call(st, res, n)
         # a call on self (or passing self) may change self's attributes
@@ -883,13 +887,17 @@ class Summarizer(Evaluator):
             st.env[target.id] = val
         elif isinstance(target, ast.Attribute):
             base = self.k(target.value, st)
+            tk = ('attr', base, target.attr)
+            self._note_increment(tk, val, st, lineno)
             st.heap[(base, target.attr)] = val
-            st.trace.append(('store', ('attr', base, target.attr), vk, lineno))
+            st.trace.append(('store', tk, vk, lineno))
         elif isinstance(target, ast.Subscript):
             base = self.k(target.value, st)
             idx = self.k(target.slice, st)
+            tk = ('sub', base, idx)
+            self._note_increment(tk, val, st, lineno)
             st.heap[(base, ('idx', idx))] = val
-            st.trace.append(('store', ('sub', base, idx), vk, lineno))
+            st.trace.append(('store', tk, vk, lineno))
         elif isinstance(target, (ast.Tuple, ast.List)):
             for i, e in enumerate(target.elts):
                 if vk[0] in ('tuple', 'list') and len(vk[1]) == len(
@@ -900,6 +908,18 @@ class Summarizer(Evaluator):
                                 lineno)
         else:
             raise Unmodelled('assignment target %s' % src(target))
+
+    def _note_increment(self, tk, val, st, lineno):
+        """`t += d`, `t -= d` and `t = t + d` all become one event
+        ('aug', t, 'Add', d) with a signed delta."""
+        if not isinstance(val, Poly):
+            return
+        mono = ((tk, 1),)
+        if val.terms.get(mono) == 1:
+            rest = Poly(dict((m, c) for m, c in val.terms.items()
+                             if m != mono))
+            if tk not in rest.atoms():
+                st.trace.append(('aug', tk, 'Add', rest.key(), lineno))
 
     def st_Assign(self, n, st):
         val = self.ev(n.value, st)
@@ -916,8 +936,6 @@ class Summarizer(Evaluator):
         fake = ast.BinOp(left=_load(n.target), op=n.op, right=n.value)
         ast.copy_location(fake, n)
         val = self.ev(fake, st)
-        st.trace.append(('aug', self._target_key(n.target, st),
-                         type(n.op).__name__, self.k(n.value, st), n.lineno))
         self.assign(n.target, val, st, n.lineno)
         return [(st, None)]
 
